@@ -8,6 +8,7 @@ def check(ctx):
     deps.layer(ctx, 'C03', kernel, deps.REALTIME)
     whomay.agenda_readers(ctx, 'C03')
     nondet.sources(ctx, 'C03')
+    nondet.class_level_mutables(ctx, 'C03')
     whomay.schedule_delay_exact(ctx, 'C03')
     guards.nan_refused(ctx, 'C03', [('Environment', 'run', 'until')],
                        'a NaN stop time puts an unordered key on the agenda: run() returns after an arbitrary prefix of the schedule')
